@@ -162,12 +162,14 @@ def r09_2(ctx, m):
     if not isinstance(arg, ast.Name):
         raise AnalysisError("R09.2", f.where(wstmts[0]), "written value is not a simple variable")
     lv = arg.id
+    # other local strings the line is assembled from (`tags = "bo:i:%d..." % ...`)
+    str_locals = {st.targets[0].id for st in walk_stmts(m.pass2.body) if isinstance(st, ast.Assign) and len(st.targets) == 1 and isinstance(st.targets[0], ast.Name) and isinstance(st.value, (ast.BinOp, ast.JoinedStr, ast.Call, ast.Constant)) and not (isinstance(st.value, ast.Call) and isinstance(st.value.func, ast.Attribute) and st.value.func.attr in ("tell", "readline", "seek"))}
     n_ok = 0
     shown = None
     for p in m.p2_paths:
         if p.term == "raise":
             continue
-        b = tmpl.Builder(track_vars=[lv])
+        b = tmpl.Builder(track_vars=[lv] + sorted(str_locals - {lv}))
         raw_ok = False
         for e in p.events:
             if e.kind == "stmt" and isinstance(e.node, ast.Assign) and norm(e.node.targets[0]) == lv:
